@@ -363,7 +363,9 @@ func (*BinaryStringExprNode) GetType() NodeType {
 }
 
 func (node *BinaryStringExprNode) IsSeekable() bool {
-	return (node.op == BinaryOpEQ || node.op == BinaryOpNEQ) &&
+	// seeking to the operand only answers equality; for != the element found at the seek
+	// position says nothing about the other elements of the set
+	return node.op == BinaryOpEQ &&
 		(node.left.IsConst() || node.right.IsConst())
 }
 
